@@ -36,6 +36,15 @@ var substs = map[string]subst{
 var fileSubsts = map[string]map[string]subst{
 	"tcpdialer.go": {"net.Dialer": {"simnet", "verif/simrt/simnet", "Dialer"}},
 	"prefork.go":   {"os/exec.Cmd": {"simexec", "verif/simrt/simexec", "Cmd"}},
+	"fs.go": {
+		"os.Open":       {"simfs", "verif/simrt/simfs", "Open"},
+		"os.Stat":       {"simfs", "verif/simrt/simfs", "Stat"},
+		"os.MkdirAll":   {"simfs", "verif/simrt/simfs", "MkdirAll"},
+		"os.CreateTemp": {"simfs", "verif/simrt/simfs", "CreateTemp"},
+		"os.Remove":     {"simfs", "verif/simrt/simfs", "Remove"},
+		"os.Chtimes":    {"simfs", "verif/simrt/simfs", "Chtimes"},
+		"os.Rename":     {"simfs", "verif/simrt/simfs", "Rename"},
+	},
 }
 
 var sharedImporter types.Importer
